@@ -61,6 +61,8 @@ CONFIGS = {
     # the same command string read in two ways: its standard output (nothing), or the file it rewrote (--in-place)
     "metro_ip_off": ["--hash-fn", "metro", "--transform", "fcv-tr-inplace keep $IN"],
     "metro_ip_on": ["--hash-fn", "metro", "--transform", "fcv-tr-inplace keep $IN", "--in-place"],
+    # a command that merely CONTAINS the text ' --in-place' as an argument of the program (the flag itself is not given)
+    "metro_ip_text": ["--hash-fn", "metro", "--transform", "fcv-tr-inplace keep $IN --in-place"],
 }
 
 
@@ -90,7 +92,8 @@ def cases(tier, seed):
                 for cfg in ("metro", "metro_head"):
                     out.append({"history": [[list(e1), cfg], [list(e2), cfg]], "kills": False})
         # the same transform command with and without --in-place
-        for c1, c2 in (("metro_ip_off", "metro_ip_on"), ("metro_ip_on", "metro_ip_off")):
+        for c1, c2 in (("metro_ip_off", "metro_ip_on"), ("metro_ip_on", "metro_ip_off"), ("metro_ip_text", "metro_ip_on"),
+                       ("metro_ip_on", "metro_ip_text")):
             for e1 in EDITS_QUICK[:2]:
                 for e2 in EDITS_QUICK[:2] + EDITS_QUICK[5:6]:
                     out.append({"history": [[list(e1), c1], [list(e2), c2]], "kills": False})
